@@ -3,3 +3,5 @@ pub mod configuration;
 pub mod crypto;
 pub mod serialize;
 pub mod test;
+#[cfg(saito_verif)]
+pub mod verif;
